@@ -49,6 +49,20 @@ type graph struct {
 	store *memstore.Store
 	ls    linking.LinkSystem
 	fault string // armed storage fault: the next block write stream fails in this way ("" = none)
+	// armed read fault: while set, every block load is refused — "rk" with traversal.SkipMe{} (the answer a
+	// walk-style loader gives for a block it chooses not to have), "re" with a plain error.  A transform whose
+	// path crosses a link cannot reach its target then and must fail as a whole, whatever the error's type.
+	rfault string
+}
+
+// arm sets the write or the read fault of one transform, according to the first letter of f.
+func (g *graph) arm(f string) {
+	g.fault, g.rfault = "", ""
+	if strings.HasPrefix(f, "r") {
+		g.rfault = f
+	} else {
+		g.fault = f
+	}
 }
 
 // Storage faults: "o" the write opener fails; "c" the commit fails; "w<k>" the k-th Write of the stream
@@ -80,6 +94,16 @@ func newGraph() *graph {
 	g := &graph{store: &memstore.Store{}}
 	g.ls = cidlink.DefaultLinkSystem()
 	g.ls.SetReadStorage(g.store)
+	read := g.ls.StorageReadOpener
+	g.ls.StorageReadOpener = func(lctx linking.LinkContext, l datamodel.Link) (io.Reader, error) {
+		switch g.rfault {
+		case "rk":
+			return nil, traversal.SkipMe{}
+		case "re":
+			return nil, errors.New("injected read fault")
+		}
+		return read(lctx, l)
+	}
 	g.ls.StorageWriteOpener = func(lctx linking.LinkContext) (io.Writer, linking.BlockWriteCommitter, error) {
 		fault := g.fault
 		g.fault = ""
@@ -460,13 +484,13 @@ func runFT(g *graph, root *lib.Val, steps []step) string {
 			return "builderr"
 		}
 		var res datamodel.Node
-		g.fault = st.fault
+		g.arm(st.fault)
 		err = lib.Safely(func() error {
 			var e error
 			res, e = g.prog().FocusedTransform(cur, mkPath(st.path), fn, st.cp)
 			return e
 		})
-		g.fault = ""
+		g.arm("")
 		cb := "#cb:" + strings.Join(log, ",")
 		if err != nil {
 			outs = append(outs, errClass(err)) // what the callback saw is reported for completed transforms only
@@ -1026,6 +1050,8 @@ func genStep0(g *graph, r *lib.Rng, cur *lib.Val) step {
 	st := step{path: typed(r, append(append([]string(nil), base...), p...)), fn: fn, cp: cp}
 	if r.Intn(14) == 0 { // the storage fails during this transform
 		st.fault = []string{"o", "c", "w1", "w2", "w3", "w7", "s1", "s2", "s5"}[r.Intn(9)]
+	} else if len(base) > 0 && r.Intn(8) == 0 { // the storage refuses every load during this transform
+		st.fault = []string{"rk", "re"}[r.Intn(2)]
 	}
 	return st
 }
@@ -1335,6 +1361,14 @@ func corpus(out *lib.Out) {
 		ft(outer, bl, good, step{strs("k", "in", "b"), "id", false, f}, step{strs("k", "in", "b"), "wrap", false, ""})
 	}
 	ft(m3, nil, step{strs("x"), c7, false, "w1"}, step{strs("l", "-"), c7, false, "c"}) // no store is attempted: the fault is not hit
+	// the loader refuses every block during a transform (SkipMe or a plain error): below a link the transform
+	// fails as a whole and the next ones go on from the same tree; above every link nothing is loaded
+	for _, f := range []string{"rk", "re"} {
+		ft(outer, bl, step{strs("k", "in", "a", "0"), "c:i8", false, f}, good, step{strs("k", "z"), "del", false, ""})
+		ft(outer, bl, good, step{strs("k", "in", "b"), "id", false, f}, step{strs("k", "in", "b"), "wrap", false, f}, step{strs("k", "in", "b"), "wrap", false, ""})
+		ft(outer, bl, step{strs("k", "in", "nope", "x"), c7, true, f}, step{strs("n"), c7, false, f}, good)
+		ft(m3, nil, step{strs("x"), c7, false, f}, step{strs("l", "-"), c7, false, f})
+	}
 	// walking transforms
 	wn := 0
 	wt := func(root *lib.Val, blocks []*lib.Val, st string, fn string) {
@@ -1494,17 +1528,17 @@ func main() {
 				break
 			}
 			var res datamodel.Node
-			scratch.fault = st.fault
+			scratch.arm(st.fault)
 			err = lib.Safely(func() error {
 				var e error
 				res, e = scratch.prog().FocusedTransform(curNode, mkPath(st.path), fn, st.cp)
 				return e
 			})
-			scratch.fault = ""
+			scratch.arm("")
 			if err != nil && !lib.IsPanic(err) {
 				// a failed transform leaves everything as it was and the run goes on; store failures are
 				// always kept (the transforms after them are what matters), other errors half of the time
-				if errClass(err) == "err:store" || r.Bool() {
+				if errClass(err) == "err:store" || st.fault != "" || r.Bool() {
 					steps = append(steps, st)
 					j++
 				}
